@@ -36,3 +36,14 @@ func TestGlobalExpandNoFile(t *testing.T) {
 
 	assert.Len(t, items, 1)
 }
+
+func TestGlobExpandBadPatternIsLiteral(t *testing.T) {
+	iter := GlobExpand([]string{"bad[pattern"}, false)
+
+	items := make([]string, 0)
+	for ele := range iter {
+		items = append(items, ele)
+	}
+
+	assert.Equal(t, []string{"bad[pattern"}, items)
+}
